@@ -283,7 +283,7 @@ def run(ctx):
                 if tag == "CASE":
                     fc.write(payload + "\n")
                     n_cases[0] += 1
-            mc = vlib.run_tlc(ctx, "MC_Shaper", cfg, "mc", workers=6, timeout=600 if ctx.quick else 1500, sink=sink)
+            mc = vlib.run_tlc(ctx, "MC_Shaper", cfg, "mc", workers=8, timeout=600 if ctx.quick else 2400, sink=sink)
         mcf = fut.result()
     ctx.note("MC_Shaper: %d states generated, %d distinct, depth %d, %d class strings (%.1fs)" %
              (mc.generated, mc.distinct, mc.depth, n_cases[0], mc.wall))
